@@ -83,6 +83,7 @@ var limits = map[string]float64{
 	"lasy2-residual":                      500,   // 2.21
 	"lasy2-xnorm":                         500,   // 0
 	"laln2-residual":                      500,   // 2.36
+	"laln2-perturbed-solution":            500,   // 0
 	"laln2-xnorm":                         500,   // 0
 	"lag2-determinant-vanishes":           500,   // 2.19
 	"sweep-similarity-residual":           2000,  // 14.2
